@@ -142,6 +142,9 @@ func ReadRespBody(resp *protocol.Response, r network.Reader, maxBodySize int) (e
 type clientRespStream struct {
 	r             io.Reader
 	closeCallback func(shouldClose bool) error
+	// readFailed is set once a Read failed: the exchange did not complete
+	// cleanly, the connection must not be reused.
+	readFailed bool
 }
 
 func (c *clientRespStream) Close() (err error) {
@@ -149,7 +152,7 @@ func (c *clientRespStream) Close() (err error) {
 	// If error happened in release, the connection may be in abnormal state.
 	// Close it in the callback in order to avoid other unexpected problems.
 	err = ext.ReleaseBodyStream(c.r)
-	shouldClose := false
+	shouldClose := c.readFailed
 	if err != nil {
 		shouldClose = true
 		hlog.Warnf("connection will be closed instead of recycled because an error occurred during the stream body release: %s", err.Error())
@@ -162,11 +165,16 @@ func (c *clientRespStream) Close() (err error) {
 }
 
 func (c *clientRespStream) Read(p []byte) (n int, err error) {
-	return c.r.Read(p)
+	n, err = c.r.Read(p)
+	if err != nil && err != io.EOF {
+		c.readFailed = true
+	}
+	return n, err
 }
 
 func (c *clientRespStream) reset() {
 	c.closeCallback = nil
+	c.readFailed = false
 	c.r = nil
 	clientRespStreamPool.Put(c)
 }
